@@ -52,7 +52,16 @@ out += ["", f"{c} of {n} seeded changes are caught by the quick tier.", "",
         "C11, C16 added: a pyramid re-opened with its format guessed from the files, in a directory whose name has a dot (C02-8);",
         "sampling through `Builder.toast_base` with `is_planet` / explicit `coordsys` (C06-8) and samplers with +inf regions",
         "(C06-9); requests handed over as read-only / integer / shared / re-used arrays (C11-7, C11-8); an explicit LONPOLE and a",
-        "description built on the object's own WCS object flipped first (C16-8, C16-9).", ""]
+        "description built on the object's own WCS object flipped first (C16-8, C16-9). The rest of round 3 (C01, C03, C04, C09,",
+        "C10, C12, C14, C15, C17, C18, C19, C20): integer FITS pyramids and depth-0 pyramids in C14 (C14-8, C14-9); tiles read after",
+        "a loader with `--black-to-transparent` was used in the process, pure-black pixels (C15-9); the filtered route under the",
+        "library's own box filter (C04-8); fault points inside the store's write and source files that cannot be opened (C18-8,",
+        "C18-9; C18-7 showed that the check had judged HOW a failure is reported, which it no longer does); Engine B's",
+        "`after-release` gate, freshly started interpreters and whole sampling jobs as gated programs (C10-7..9); inputs with",
+        "infinite pixels (C09-7); two-image TOAST collections with the base level chosen by toasty (C17-9); 1-D scan rows as",
+        "explicitly selectable HDUs and the blank key inside a `--wcs-key` list (C20-7, C20-8); a failure in the dispatching",
+        "process of the multi-WCS tiler (C19-8). **C04-7** (short-circuited containment score) changes which tile a look-up",
+        "returns, not the tile's corners: C12's clause.", ""]
 p = os.path.join(HERE, "DESIGN.md")
 s = open(p).read()
 i = s.index("## 7. Which checks catch which seeded changes")
